@@ -225,6 +225,21 @@ static void crystal_history(long hno, int maxlen, int builtin, const char *tmpdi
       fclose(f);
       e = NULL; LAST("Crystal_ReadFile(%s) kind=%d corrupt=%d dup=%d n=%d", path, kind, corrupt, dup, ncr);
       TR("readfile(n=%d,corrupt=%d@%d,dup=%d);", ncr, corrupt, badpos, dup);
+      { /* one file in twelve arrives through a pipe (/proc/self/fd/N): fopen works, fseek does not.  Whatever the library makes of such a
+         * stream, the contract holds (failure with an error and an untouched collection, or success) and nothing stays allocated */
+        int pfd[2] = { -1, -1 }, viapipe = xv_below(&r, 12) == 0; char fdpath[64]; long flen = 0; char *fbuf = NULL;
+        if (viapipe) { FILE *g = fopen(path, "rb"); if (g) { fseek(g, 0, SEEK_END); flen = ftell(g); fseek(g, 0, SEEK_SET); fbuf = malloc(flen + 1); if (fread(fbuf, 1, flen, g) != (size_t)flen) flen = -1; fclose(g); } else flen = -1;
+          if (flen < 0 || flen > 60000 || pipe(pfd)) viapipe = 0;
+          else { if (write(pfd[1], fbuf, flen) != flen) {} close(pfd[1]); snprintf(fdpath, sizeof fdpath, "/proc/self/fd/%d", pfd[0]); }
+          free(fbuf); }
+        if (viapipe) { TR("viapipe:"); LAST("Crystal_ReadFile(<pipe>) kind=%d corrupt=%d dup=%d n=%d", kind, corrupt, dup, ncr);
+          rv = Crystal_ReadFile(fdpath, A.arr, ep); close(pfd[0]); unlink(path);
+          count_op(OP_READ_BAD, 2);
+          if (ep && (rv != 0) == (e != NULL)) hm_violation("c14:readfile-from-pipe:error-iff-failure-broken", "return value and error slot disagree");
+          if (e) xrl_error_free(e);
+          if (!rv) check_array(&A, "readfile-from-pipe");
+          else { int n2 = 0, j2; char **l2 = Crystal_GetCrystalsList(A.arr, &n2, NULL); for (j2 = 0; l2 && l2[j2]; j2++) { int q; for (q = 0; q < ncr; q++) if (!strcmp(fc[q].name, l2[j2]) && m_find(&A, l2[j2]) < 0) { Crystal_Struct *g2 = Crystal_GetCrystal(l2[j2], A.arr, NULL); if (g2) { m_crystal t = fc[q]; t.n_atom = g2->n_atom > MAXAT ? MAXAT : g2->n_atom; memcpy(t.atom, g2->atom, sizeof(Crystal_Atom) * t.n_atom); m_add(&A, &t); Crystal_Free(g2); } } xrlFree(l2[j2]); } if (l2) xrlFree(l2); }
+          free(fc); continue; } }
       rv = Crystal_ReadFile(path, A.arr, ep);
       unlink(path);
       if (!corrupt && !dup && builtin && A.n + ncr > CRYSTALARRAY_MAX) {
